@@ -842,8 +842,10 @@ def format_summary(obj: model.Documentable) -> Tag:
     with source.docstring_linker.switch_context(None):
         # ParserErrors will likely be reported by the full docstring as well,
         # so don't spam the log, pass report=False.
+        # The summary that is remembered as broken is the one of obj: the source is another object
+        # when the docstring is inherited or comes from a field of the parent's docstring.
         stan = safe_to_stan(parsed_doc, source.docstring_linker, source, report=False,
-                fallback=format_summary_fallback)
+                fallback=lambda errs, doc, ctx: format_summary_fallback(errs, doc, obj))
 
     return stan
 
